@@ -13,6 +13,13 @@
   per frame (`pending`, oldest first) which `_Shutdown` does not kill; they run when the
   receive loop next yields — after the reads that were already buffered, and after the
   `_Shutdown` that a failing one of those reads causes (`burst`).
+  A completed handshake ping does not make the transport Open by itself: `_ProcessReply` only
+  sets the ping's result (`ar.set()`), and the `_OpenImpl` greenlet that waits for it resumes
+  later in the same drain.  Something else can run in between — the failing next read of the
+  receive loop, a failing write of the send loop, a `Close()` (`race`, positions `pre`/`mid`,
+  and `first` for an event that is noticed before the frames of the same drain are even read).
+  `_OpenImpl` then finds the transport shut down and fails the open (repair F16) instead of
+  declaring it Open.
   Time is abstract: `pingDue` is "the ping loop's sleep ends", `pingSilence` is "five seconds
   passed since the ping was queued and no Rping arrived".  Tags are opaque keys (the tag pool
   is C11's subject): the tag the pool handed out is a parameter of `req`.  Import-free.
@@ -209,5 +216,136 @@ def St.request (s : St) (id tag : Nat) : St × Out :=
 def St.close (s : St) : St × Out :=
   let (s', e) := s.shutdown false
   (s', { eff := e })
+
+/-! ### events that land in the middle of a drain
+
+  Between two operations of the model the callback list of the event loop is empty.  Within
+  one drain the order is: the receive loop takes the reads that are there (`rdMany`) and
+  spawns one `_ProcessReply` greenlet per frame; those run (`dispatchQ`); the greenlets they
+  woke — `_OpenImpl` blocked in `ar.get()` on the handshake's ping, the ping helper — resume
+  (`resumeOpen`).  A *hit* is an event of the environment that is noticed somewhere in
+  between. -/
+
+/-- the event that lands in the middle of the drain -/
+inductive Hit where
+  | rdRaise     -- the receive loop's next read raises
+  | rdEof       -- the receive loop's next read meets the end of the stream
+  | wr          -- the send loop's pending write raises
+  | close       -- `Close()` is called
+  deriving Repr, DecidableEq, Inhabited
+
+/-- is the event a connection failure (`Close()` is not: no fault signal) -/
+def Hit.isFault : Hit → Bool
+  | .close => false
+  | _ => true
+
+/-- where it lands -/
+inductive Pos where
+  | first       -- before the receive loop has taken the reads of this drain
+  | pre         -- after the reads, before the `_ProcessReply` greenlets of their frames run
+  | mid         -- after those ran, before the greenlets they woke resume
+  deriving Repr, DecidableEq, Inhabited
+
+/-- the hit itself: the loop concerned (if it is still there) calls `_Shutdown(e)`; `Close()` is
+    `_Shutdown` without the fault signal -/
+def St.hit (s : St) : Hit → St × Eff
+  | .rdRaise => if s.rl = .dead then (s, {}) else s.shutdown true
+  | .rdEof => if s.rl = .dead then (s, {}) else s.shutdown true
+  | .wr =>
+    match s.sl with
+    | .writing _ => s.shutdown true
+    | _ => (s, {})
+  | .close => s.shutdown false
+
+/-- does the `_ProcessReply` greenlet of `f` complete the ping `_OpenImpl` is waiting for -/
+def St.wakes (s : St) (f : Frame) : Bool :=
+  decide (f = .rping) && s.pingWait && s.opening
+
+/-- `_ProcessReply` for a frame, up to but not including the resumption of the greenlets it
+    wakes: the handshake's Rping sets the ping's result — `_OpenImpl` is no longer blocked on it,
+    but has not run yet -/
+def St.processQ (s : St) (f : Frame) : St × Eff :=
+  if s.wakes f then ({ s with pingWait := false, opening := false }, {}) else s.process f
+
+/-- the `_ProcessReply` greenlets of the frames run, oldest first; the flag says whether one of
+    them (or an earlier one: `w`) woke `_OpenImpl` -/
+def dispatchQGo : List Frame → St → Bool → St × List (Nat × Resp) × Bool
+  | [], s, w => (s, [], w)
+  | f :: fs, s, w =>
+    let (s1, e1) := s.processQ f
+    let (s2, d2, w2) := dispatchQGo fs s1 (w || s.wakes f)
+    (s2, e1.dels ++ d2, w2)
+
+def St.dispatchQ (s : St) : St × List (Nat × Resp) × Bool :=
+  dispatchQGo s.pending { s with pending := [] } false
+
+/-- `_OpenImpl` resumes from `ar.get()` with the handshake's Rping.  Repair F16: if `_Shutdown`
+    ran meanwhile this is not an open transport — 'Connection lost while opening.'; the open
+    result was already failed by that `_Shutdown`, the `_Shutdown('Open failed')` of the handler
+    returns at once.  Otherwise the transport is Open and the ping loop starts. -/
+def St.resumeOpen (s : St) : St :=
+  if s.cstate = .closed then s
+  else { s with cstate := .opened, openRes := .ok, pingLoop := true, opening := false }
+
+/-- … if it was woken -/
+def St.resumeIf (s : St) : Bool → St
+  | true => s.resumeOpen
+  | false => s
+
+/-- effects of two consecutive parts of one operation -/
+def effApp (a b : Eff) : Eff :=
+  { faults := a.faults + b.faults, dels := a.dels ++ b.dels, conns := a.conns + b.conns }
+
+/-- The reads `rs` of the receive loop return without a yield in between, as in `burst`, and in
+    the same drain the event `h` lands at position `pos`.
+    * `first`: `h` is noticed first; the reads find a receive loop that has been killed (their
+      frames, if the loop still completes one, are dispatched on a closed transport and dropped).
+    * `pre`: the receive loop has taken the reads and spawned the `_ProcessReply` greenlets, `h`
+      runs, then they do — on a transport that has been shut down.
+    * `mid`: the `_ProcessReply` greenlets have run — replies are delivered, a ping is answered —
+      then `h` runs, and only then do the greenlets resume that the frames woke. -/
+def St.race (s : St) (rs : List (IOOut × Frame)) (pos : Pos) (h : Hit) : St × Out :=
+  match pos with
+  | .first =>
+    let r1 := s.hit h
+    let r2 := r1.1.burst rs
+    (r2.1, { eff := effApp r1.2 r2.2.eff })
+  | .pre =>
+    let r1 := s.rdMany rs
+    let r2 := r1.1.hit h
+    let r3 := r2.1.dispatch
+    (r3.1, { eff := effApp (effApp r1.2 r2.2) { dels := r3.2 } })
+  | .mid =>
+    let r1 := s.rdMany rs
+    let r2 := r1.1.dispatchQ
+    let r3 := r2.1.hit h
+    (r3.1.resumeIf r2.2.2, { eff := effApp (effApp r1.2 { dels := r2.2.1 }) r3.2 })
+
+/-- `Open()` on an endpoint that accepts the connection and whose first bytes — or reset, or end
+    of stream — are already there when the receive loop starts: `_OpenImpl` connects, spawns the
+    receive loop, the send loop and (with the handshake's Tping) the ping helper and blocks; the
+    receive loop, first to start, runs through the reads `rs` before the other two have started
+    (a failing read shuts the transport down before the send loop ever runs and before the helper
+    has picked up its ping); then the drain.  In effect: the open, then the burst. -/
+def St.openBurst (s : St) (rs : List (IOOut × Frame)) : St × Out :=
+  let r1 := s.openT .ok
+  let r2 := r1.1.burst rs
+  (r2.1, { eff := { faults := r2.2.eff.faults, dels := r2.2.eff.dels, conns := r1.2.eff.conns } })
+
+/-! ### the code as found (before repair F16), for the counterexample theorem only -/
+
+/-- `_OpenImpl` as found: after `ar.get()` returned it declared the transport Open without
+    looking at what had happened meanwhile -/
+def St.resumeOpenAsFound (s : St) : St :=
+  { s with cstate := .opened, openRes := .ok, pingLoop := true, opening := false }
+
+/-- `race … mid h` with `_OpenImpl` as found -/
+def St.raceMidAsFound (s : St) (rs : List (IOOut × Frame)) (h : Hit) : St × Out :=
+  let r1 := s.rdMany rs
+  let r2 := r1.1.dispatchQ
+  let r3 := r2.1.hit h
+  ((match r2.2.2 with
+    | true => r3.1.resumeOpenAsFound
+    | false => r3.1), { eff := effApp (effApp r1.2 { dels := r2.2.1 }) r3.2 })
 
 end Scales.MuxT
